@@ -2,7 +2,7 @@
    Only statements closed by [exact] of a lemma proved in Proofs/. *)
 From Coq Require Import String List ZArith Permutation.
 From HV Require Import Base.SortSpec Base.Pos Model.Addr Model.DepKeys Model.Schema Model.Ast Model.Merge Model.Links
-                       Proofs.DepKeysProofs Proofs.LinksProofs.
+                       Proofs.DepKeysProofs Proofs.LinksProofs Proofs.LinksComplete.
 
 (* A schema key depends only on the (multi)set of key/value pairs, not on the order in which they
    are listed - for every list of label and attribute keys, repeated indices and names included. *)
@@ -47,3 +47,21 @@ Theorem C16_attribute_keys_are_dependency_key_attributes : forall sattrs attrs a
   In ak (attr_keys sattrs attrs) -> exists s, In (ak_name ak, s) sattrs /\ af_depkey (as_flags s) = true.
 Proof. exact attr_keys_depkey. Qed.
 Print Assumptions C16_attribute_keys_are_dependency_key_attributes.
+
+(* ... and conversely every key label (that is written) and every key attribute written in the block carries the link of
+   the body they selected: "exactly" the selecting labels / attributes *)
+Theorem C16_selecting_label_carries_the_link : forall url ks k dep dk res u tip u' ld r,
+  dependent_body_schema ks k = (Some dep, dk, res) -> res <> LookupFailed ->
+  bs_docs dep = Some (u, tip) -> url u = Some u' ->
+  In ld (dk_labels dk) -> nth_error (k_label_rngs k) (Z.to_nat (ld_index ld)) = Some r ->
+  In {| lk_uri := u'; lk_tooltip := tip; lk_rng := r |} (block_links url ks k).
+Proof. exact selecting_label_carries_the_link. Qed.
+Print Assumptions C16_selecting_label_carries_the_link.
+
+Theorem C16_selecting_attribute_carries_the_link : forall url ks k dep dk res u tip u' ak a,
+  dependent_body_schema ks k = (Some dep, dk, res) -> res <> LookupFailed ->
+  bs_docs dep = Some (u, tip) -> url u = Some u' ->
+  In ak (dk_attrs dk) -> find_attr (ak_name ak) (b_attrs (k_body k)) = Some a ->
+  In {| lk_uri := u'; lk_tooltip := tip; lk_rng := expr_range (a_expr a) |} (block_links url ks k).
+Proof. exact selecting_attribute_carries_the_link. Qed.
+Print Assumptions C16_selecting_attribute_carries_the_link.
